@@ -22,7 +22,7 @@ RULE = ("single-language sets of 1-4 cues with distinct increasing times; each c
         'breaks, and a writer object that has written another set before. '
         "A line may also be cut into 2-3 adjacent text nodes at any character (also inside a "
         "delimiter such as --> or &amp;), and a caption may begin or end with 1-2 BREAK nodes. "
-        " For WebVTT also '-->' split over two text nodes with a tag-less style node between them or in a layout group that is not the last; for the legacy / single / SRT writers a caption may occur twice (same times, same text) and the merged cue must hold the lines of both. A line may have its first or second part inside a style span (italics / bold / underline / colour) with the blank between the parts on either side of the span edge.")
+        " For WebVTT also '-->' split over two text nodes with a tag-less style node between them or in a layout group that is not the last; for the legacy / single / SRT writers a caption may occur twice (same times, same text) and the merged cue must hold the lines of both. A line may have its first or second part inside a style span (italics / bold / underline / colour) with the blank between the parts on either side of the span edge; a style span may open at the end of one line and close on a later one.")
 ASSUMPTIONS = [
     "a line split into several text nodes may gain white space where two nodes meet (writers "
     "differ, legitimately, in whether they join text nodes with a space); every authored blank "
@@ -105,6 +105,17 @@ def case_strategy(tier):
                 c["nodes"][ti[0]:ti[0] + 1] = [S, ta, E, tb] if shape == "first" else [ta, S, tb, E]
                 c["multi"] = True
                 c["styled"] = True
+        if draw(st.integers(0, 7)) == 0:
+            # a style span that opens at the end of one line and closes on a later one
+            c = s["langs"][0]["cues"][draw(st.integers(0, len(s["langs"][0]["cues"]) - 1))]
+            bi = [k for k, n in enumerate(c["nodes"]) if "br" in n]
+            ti = [k for k, n in enumerate(c["nodes"]) if "t" in n]
+            if bi and ti and ti[0] < bi[0] and ti[-1] > bi[0] and not any("s" in n for n in c["nodes"]):
+                st_c = draw(st.sampled_from([{"italics": True}, {"bold": True}, {"underline": True}, {"color": "red"}]))
+                S = {"s": True, "c": st_c, "layout": c["nodes"][ti[0]].get("layout")}
+                E = {"s": False, "c": st_c, "layout": c["nodes"][ti[-1]].get("layout")}
+                c["nodes"] = c["nodes"][:bi[0]] + [S] + c["nodes"][bi[0]:] + [E]
+                c["span_over_break"] = True
         if w in ("dfxp-legacy", "dfxp-single", "srt") and draw(st.integers(0, 5)) == 0:
             # the same caption twice (same times, same text): writers that merge concurrent
             # captions join them into one cue holding the lines of both
@@ -270,6 +281,8 @@ def check_case(case, rec):
         rec.label("split-nodes")
     if any(c.get("blank_nodes") for c in cues):
         rec.label("blank-text-node-lines")
+    if any(c.get("span_over_break") for c in cues):
+        rec.label("span-over-line-break")
     if any(c.get("styled") for c in cues):
         rec.label("blank-at-style-edge")
     if any(c.get("layouts") for c in cues):
